@@ -4,6 +4,7 @@
 #include "Compiler/include/macro.hpp"
 #include "Compiler/include/parse.hpp"
 #include "Compiler/include/scan.hpp"
+#include "VM/include/verif_hook.hpp"
 
 using namespace Theo;
 
@@ -169,6 +170,7 @@ void expected_end_or_semicolon(ParseState &ps) {
 }
 
 Theo::Node *P(ParseState &ps) {
+  THEO_VERIF_POINT(PARSE_P, 0, 0);
   switch (ps.lookahead()) {
     case Token::ID: {
       Node *left = ps.matchmk(Token::ID, Node::Type::NAME, NULL, NULL);
@@ -367,6 +369,7 @@ DEFINE PRIO 1000000 <ID> - <INT> AS RUN __DEC__ WITH $0, $1 END END DEFINE\n\
 
   while (ps.pos < mar.transformed_sequence.end() &&
          ps.lookahead() != Token::T_EOF) {
+    THEO_VERIF_POINT(PARSE_TRAILING, 0, 0);
     ps.a.errors.push_back(
         {ps.pos->line, ps.pos->file,
          "expected EOF, but got excess input: '" + ps.pos->text + "'"});
